@@ -87,113 +87,313 @@ def _strip_doc(body):
     return body
 
 
-class Formula:
-    """straight-line scalar formula code -> nested `let`s over R.
-    env: python name -> ('scalar', coq text) | ('array', coq prefix)   (arrays are read through constant subscripts:
-    prefix_i_j becomes a parameter, collected in order of first use)."""
+class Arr:
+    """symbolic parameter array: elements become parameters `prefix_i_j`; shape None = unknown (then a read
+    without further subscripts is a scalar parameter)"""
 
-    def __init__(self, where):
-        self.where = where
-        self.params = []          # coq parameter names in order of first use
+    def __init__(self, base, idx=(), shape=None):
+        self.base, self.idx, self.shape = base, tuple(idx), shape
+
+
+def _substitute(e, env):
+    """AST substitution of names by expressions (normalisation of single-assignment temporaries)"""
+    class S(ast.NodeTransformer):
+        def visit_Name(self, n):
+            if isinstance(n.ctx, ast.Load) and n.id in env:
+                return env[n.id]
+            return n
+    import copy
+    return S().visit(copy.deepcopy(e))
+
+
+def inline_temporaries(body, where, keep=()):
+    """straight-line body `t1 = e1; t2 = e2; ...; return e` -> e with every temporary substituted.
+    Only plain-name targets assigned once; anything else is rejected."""
+    env = {}
+    for st in body[:-1]:
+        if not (isinstance(st, ast.Assign) and len(st.targets) == 1 and isinstance(st.targets[0], ast.Name)):
+            raise TranslationError('expected a sequence of simple assignments before the return', st, where)
+        nm = st.targets[0].id
+        if nm in env:
+            raise TranslationError('temporary %s assigned twice' % nm, st, where)
+        env[nm] = _substitute(st.value, env)
+    if not body or not isinstance(body[-1], ast.Return) or body[-1].value is None:
+        raise TranslationError('expected a final return', body[-1] if body else None, where)
+    return _substitute(body[-1].value, env)
+
+
+class Formula:
+    """straight-line formula code -> nested `let`s over R, on a NORMALISED form: temporaries, tuple assignments (also
+    nested / from rows of an array), augmented assignments, array literals with scalar broadcasting, module-level
+    constants and calls of module-level functions / methods of the same class whose body is itself a formula
+    (inlined) are all reduced to scalar expressions over parameters.
+    Values: str (scalar Coq text) | list (of values) | Arr (symbolic parameter array).
+    Parameters: declared arguments first (declaration order, all elements of arrays of known shape), then the
+    object attributes that are read, sorted by name - independent of the order of first use."""
+
+    def __init__(self, where, tr=None, cname=None, use_lets=True, prefix=''):
+        self.where, self.tr, self.cname = where, tr, cname
+        self.declared = []        # (base, shape or None) in declaration order
+        self.used = []            # (base, idx) of attribute parameters that were read
         self.env = {}
         self.lets = []            # (coq name, coq expr)
+        self.use_lets = use_lets
+        self.prefix = prefix
+        self.depth = 0
 
     def err(self, msg, node=None):
         raise TranslationError(msg, node, self.where)
 
-    def param(self, name):
-        if name not in self.params:
-            self.params.append(name)
-        return name
+    # ---- parameters ------------------------------------------------------------------------------
+    @staticmethod
+    def pname(base, idx):
+        return base + ''.join('_%d' % i for i in idx)
+
+    def param(self, base, idx=()):
+        for b, shp in self.declared:
+            if b == base:
+                return self.pname(base, idx)
+        if (base, tuple(idx)) not in self.used:
+            self.used.append((base, tuple(idx)))
+        return self.pname(base, idx)
+
+    @property
+    def params(self):
+        out = []
+        for b, shp in self.declared:
+            if shp is None or shp == ():
+                out.append(b)
+            else:
+                import itertools as it
+                out += [self.pname(b, ix) for ix in it.product(*[range(n) for n in shp])]
+        return out + sorted(self.pname(b, ix) for b, ix in self.used)
 
     def declare_scalar(self, pyname, coqname=None):
-        self.env[pyname] = ('scalar', self.param(coqname or pyname))
+        self.declared.append((coqname or pyname, ()))
+        self.env[pyname] = coqname or pyname
 
-    def declare_array(self, pyname, prefix=None):
-        self.env[pyname] = ('array', prefix or pyname)
+    def declare_array(self, pyname, prefix=None, shape=None):
+        if shape is not None:
+            self.declared.append((prefix or pyname, tuple(shape)))
+        self.env[pyname] = Arr(prefix or pyname, (), tuple(shape) if shape is not None else None)
 
+    # ---- values -------------------------------------------------------------------------------------
+    def scalar(self, v, node=None):
+        if isinstance(v, str):
+            return v
+        if isinstance(v, Arr) and (v.shape is None or len(v.idx) == len(v.shape)):
+            return self.param(v.base, v.idx)
+        self.err('a scalar is needed here', node)
+
+    def expand(self, v, node=None):
+        """array value -> nested lists"""
+        if isinstance(v, list):
+            return v
+        if isinstance(v, Arr) and v.shape is not None and len(v.idx) < len(v.shape):
+            return [Arr(v.base, v.idx + (k,), v.shape) for k in range(v.shape[len(v.idx)])]
+        self.err('an array of known shape is needed here', node)
+
+    def is_array(self, v):
+        return isinstance(v, list) or (isinstance(v, Arr) and v.shape is not None and len(v.idx) < len(v.shape))
+
+    def map2(self, f, a, b, node):
+        aa, ba = self.is_array(a), self.is_array(b)
+        if not aa and not ba:
+            return f(self.scalar(a, node), self.scalar(b, node))
+        if aa and ba:
+            la, lb = self.expand(a, node), self.expand(b, node)
+            if len(la) != len(lb):
+                self.err('shapes differ', node)
+            return [self.map2(f, x, y, node) for x, y in zip(la, lb)]
+        if aa:
+            return [self.map2(f, x, b, node) for x in self.expand(a, node)]
+        return [self.map2(f, a, y, node) for y in self.expand(b, node)]
+
+    def map1(self, f, a, node):
+        if self.is_array(a):
+            return [self.map1(f, x, node) for x in self.expand(a, node)]
+        return f(self.scalar(a, node))
+
+    # ---- expressions ------------------------------------------------------------------------------------
     def expr(self, e):
+        """scalar expression -> Coq text"""
+        return self.scalar(self.value(e), e)
+
+    def value(self, e):
         if isinstance(e, ast.Constant):
             return _num(e.value, e)
         if isinstance(e, ast.Name):
-            if e.id in self.env and self.env[e.id][0] == 'scalar':
-                return self.env[e.id][1]
-            self.err('unknown or non-scalar name %s' % e.id, e)
+            if e.id in self.env:
+                return self.env[e.id]
+            if self.tr is not None and e.id in self.tr.module_consts:
+                sub = Formula('module constant ' + e.id, self.tr, None, use_lets=False)
+                v = sub.value(self.tr.module_consts[e.id])
+                if sub.used:
+                    self.err('module constant %s is not a constant' % e.id, e)
+                return v
+            self.err('unknown name %s' % e.id, e)
         if _is_np(e, 'pi'):
             return 'PI'
         if isinstance(e, ast.Attribute):
             ch = _attr_chain(e)
             if ch and ch[0] == 'self' and len(ch) >= 2:
-                return self.param('_'.join(ch[1:]))
+                return Arr('_'.join(ch[1:]), (), None)
             self.err('unsupported attribute', e)
+        if isinstance(e, (ast.List, ast.Tuple)):
+            return [self.value(x) for x in e.elts]
         if isinstance(e, ast.Subscript):
             idx = _const_index(e.slice)
             if idx is None:
                 self.err('subscript must have constant integer indices', e)
-            base = e.value
-            if isinstance(base, ast.Name) and base.id in self.env and self.env[base.id][0] == 'array':
-                return self.param(self.env[base.id][1] + ''.join('_%d' % i for i in idx))
-            ch = _attr_chain(base)
-            if ch and ch[0] == 'self' and len(ch) >= 2:
-                return self.param('_'.join(ch[1:]) + ''.join('_%d' % i for i in idx))
-            self.err('subscript of an unknown array', e)
+            v = self.value(e.value)
+            for k in idx:
+                if isinstance(v, list):
+                    if not -len(v) <= k < len(v):
+                        self.err('index out of range', e)
+                    v = v[k]
+                elif isinstance(v, Arr):
+                    if v.shape is not None and (len(v.idx) >= len(v.shape) or not 0 <= k < v.shape[len(v.idx)]):
+                        self.err('index out of range', e)
+                    if k < 0:
+                        self.err('negative index of a parameter array', e)
+                    v = Arr(v.base, v.idx + (k,), v.shape)
+                else:
+                    self.err('subscript of a scalar', e)
+            return v
         if isinstance(e, ast.UnaryOp) and isinstance(e.op, ast.USub):
-            return '(- %s)' % self.expr(e.operand)
+            return self.map1(lambda x: '(- %s)' % x, self.value(e.operand), e)
+        if isinstance(e, ast.UnaryOp) and isinstance(e.op, ast.UAdd):
+            return self.value(e.operand)
         if isinstance(e, ast.BinOp):
             if isinstance(e.op, ast.Pow):
                 if not (isinstance(e.right, ast.Constant) and isinstance(e.right.value, int) and not isinstance(e.right.value, bool) and e.right.value >= 0):
                     self.err('exponent must be a non-negative integer literal', e)
-                return '(%s ^ %d)' % (self.expr(e.left), e.right.value)
+                n = e.right.value
+                return self.map1(lambda x: '(%s ^ %d)' % (x, n), self.value(e.left), e)
             ops = {ast.Add: '+', ast.Sub: '-', ast.Mult: '*', ast.Div: '/'}
             if type(e.op) not in ops:
                 self.err('unsupported operator %s' % type(e.op).__name__, e)
-            return '(%s %s %s)' % (self.expr(e.left), ops[type(e.op)], self.expr(e.right))
+            o = ops[type(e.op)]
+            return self.map2(lambda x, y: '(%s %s %s)' % (x, o, y), self.value(e.left), self.value(e.right), e)
         if isinstance(e, ast.Call):
             if e.keywords:
                 self.err('keyword arguments in a formula', e)
             if _is_np(e.func) and e.func.attr in NPFUN and len(e.args) == 1:
-                return '(%s %s)' % (NPFUN[e.func.attr], self.expr(e.args[0]))
-            if _is_np(e.func, 'prod') and len(e.args) == 1 and isinstance(e.args[0], ast.Name) \
-                    and e.args[0].id in self.env and self.env[e.args[0].id][0] == 'array':
-                p = self.env[e.args[0].id][1]
-                return '(%s * %s * %s)' % (self.param(p + '_0'), self.param(p + '_1'), self.param(p + '_2'))
+                fn = NPFUN[e.func.attr]
+                return self.map1(lambda x: '(%s %s)' % (fn, x), self.value(e.args[0]), e)
+            if _is_np(e.func, 'array') and len(e.args) == 1:
+                return self.value(e.args[0])
+            if _is_np(e.func, 'prod') and len(e.args) == 1:
+                v = self.value(e.args[0])
+                if not self.is_array(v):
+                    self.err('np.prod of something that is not an array of known shape', e)
+                items = [self.scalar(x, e) for x in self.expand(v, e)]
+                return '(' + ' * '.join(items) + ')'
+            callee = self.callee(e.func)
+            if callee is not None:
+                return self.inline(callee, e)
             self.err('unsupported call', e)
         self.err('unsupported expression %s' % type(e).__name__, e)
 
-    def bind(self, pyname, text):
-        """a let-binding; later reads of pyname see the (shadowing) let variable"""
-        coq = 'v_' + pyname
-        self.lets.append((coq, text))
-        self.env[pyname] = ('scalar', coq)
+    # ---- helper functions are inlined ------------------------------------------------------------------------
+    def callee(self, f):
+        if self.tr is None:
+            return None
+        if isinstance(f, ast.Name) and f.id in self.tr.funcs:
+            return (f.id, self.tr.funcs[f.id], False)
+        ch = _attr_chain(f)
+        if ch and len(ch) == 2 and ch[0] == 'self' and self.cname is not None:
+            m = self.tr.find_method(self.cname, ch[1])
+            if m is not None:
+                return (ch[1], m, True)
+        return None
+
+    def inline(self, callee, call):
+        name, fn, is_method = callee
+        if self.depth >= 4:
+            self.err('helper calls nested too deeply', call)
+        if fn.decorator_list and not all(isinstance(d, ast.Name) and d.id == 'staticmethod' for d in fn.decorator_list):
+            self.err('decorated helper %s' % name, call)
+        static = any(isinstance(d, ast.Name) and d.id == 'staticmethod' for d in fn.decorator_list)
+        formals = Translator.argnames(fn, drop_self=is_method and not static)
+        if fn.args.defaults or len(formals) != len(call.args):
+            self.err('helper %s: arguments do not match' % name, call)
+        actual = [self.value(a) for a in call.args]
+        saved = self.env
+        self.env = dict(zip(formals, actual))
+        self.depth += 1
+        old_prefix = self.prefix
+        self.prefix = old_prefix + name + '_'
+        try:
+            ret = None
+            for st in _strip_doc(fn.body):
+                if ret is not None:
+                    self.err('statement after return in helper %s' % name, st)
+                ret = self.stmt(st)
+            if ret is None:
+                self.err('helper %s does not return a value' % name, call)
+            return self.value(ret)
+        finally:
+            self.env, self.prefix = saved, old_prefix
+            self.depth -= 1
+
+    # ---- statements ---------------------------------------------------------------------------------------------
+    def bind(self, pyname, v):
+        """scalars become let-bindings (later reads see the shadowing variable); arrays are kept as values"""
+        if isinstance(v, str) and self.use_lets:
+            coq = 'v_' + self.prefix + pyname
+            self.lets.append((coq, v))
+            self.env[pyname] = coq
+        else:
+            self.env[pyname] = v
+
+    def freeze(self, v):
+        if isinstance(v, list):
+            return [self.freeze(x) for x in v]
+        if isinstance(v, str):
+            self.ntmp = getattr(self, 'ntmp', 0) + 1
+            coq = 'v_%stmp%d' % (self.prefix, self.ntmp)
+            self.lets.append((coq, v))
+            return coq
+        return v
+
+    def unpack(self, tg, v, node):
+        if isinstance(tg, ast.Name):
+            self.bind(tg.id, v)
+            return
+        if isinstance(tg, (ast.Tuple, ast.List)):
+            items = self.expand(v, node)
+            if len(items) != len(tg.elts):
+                self.err('cannot unpack %d values into %d names' % (len(items), len(tg.elts)), node)
+            # all right-hand sides are evaluated before any binding: freeze scalars first
+            for x, y in zip(tg.elts, items):
+                self.unpack(x, y, node)
+            return
+        self.err('unsupported assignment target', node)
 
     def stmt(self, st):
         """returns the ast of the returned expression for a Return, else None"""
         if isinstance(st, ast.Assign) and len(st.targets) == 1:
-            tg, val = st.targets[0], st.value
-            if isinstance(tg, ast.Name):
-                ch = _attr_chain(val)
-                if ch and ch[0] == 'self' and len(ch) >= 2 and not isinstance(val, ast.Subscript):
-                    # alias of an attribute: scalar if it is only used as a scalar, array if subscripted;
-                    # recorded as an array prefix, and reads as a scalar go through param()
-                    self.env[tg.id] = ('array', '_'.join(ch[1:]))
-                    return None
-                self.bind(tg.id, self.expr(val))
-                return None
-            if isinstance(tg, ast.Tuple) and isinstance(val, ast.Tuple) and len(tg.elts) == len(val.elts) \
-                    and all(isinstance(x, ast.Name) for x in tg.elts):
-                texts = [self.expr(v) for v in val.elts]          # right-hand side evaluated first
-                for x, t in zip(tg.elts, texts):
-                    self.bind(x.id, t)
-                return None
-            self.err('unsupported assignment target', st)
+            v = self.value(st.value)
+            if isinstance(st.targets[0], (ast.Tuple, ast.List)):
+                # a, b = b, a  must read the old values: when a target is already bound, the right-hand sides are
+                # first frozen in fresh let variables
+                names = [n.id for n in ast.walk(st.targets[0]) if isinstance(n, ast.Name)]
+                if self.use_lets and any(n in self.env for n in names):
+                    v = self.freeze(v)
+            self.unpack(st.targets[0], v, st)
+            return None
         if isinstance(st, ast.AugAssign) and isinstance(st.target, ast.Name):
             ops = {ast.Add: '+', ast.Sub: '-', ast.Mult: '*', ast.Div: '/'}
             if type(st.op) not in ops:
                 self.err('unsupported augmented assignment', st)
-            cur = self.expr(ast.Name(id=st.target.id, ctx=ast.Load()))
-            self.bind(st.target.id, '(%s %s %s)' % (cur, ops[type(st.op)], self.expr(st.value)))
+            o = ops[type(st.op)]
+            cur = self.value(ast.Name(id=st.target.id, ctx=ast.Load()))
+            self.bind(st.target.id, self.map2(lambda x, y: '(%s %s %s)' % (x, o, y), cur, self.value(st.value), st))
             return None
         if isinstance(st, ast.Return):
+            if st.value is None:
+                self.err('return without a value', st)
             return st.value
         self.err('unsupported statement %s' % type(st).__name__, st)
 
@@ -214,8 +414,28 @@ class Translator:
         self.mod = ast.parse(source)
         self.funcs = {n.name: n for n in self.mod.body if isinstance(n, ast.FunctionDef)}
         self.classes = {n.name: n for n in self.mod.body if isinstance(n, ast.ClassDef)}
+        # module-level constants: names assigned exactly once at module level
+        self.module_consts, seen = {}, set()
+        for n in self.mod.body:
+            if isinstance(n, ast.Assign) and len(n.targets) == 1 and isinstance(n.targets[0], ast.Name):
+                nm = n.targets[0].id
+                if nm in seen:
+                    self.module_consts.pop(nm, None)
+                else:
+                    self.module_consts[nm] = n.value
+                seen.add(nm)
         self.out = []
         self.info = {}
+
+    def find_method(self, cname, mname):
+        """method node along the (single-inheritance) base chain, or None"""
+        while cname in self.classes:
+            c = self.classes[cname]
+            for st in c.body:
+                if isinstance(st, ast.FunctionDef) and st.name == mname:
+                    return st
+            cname = c.bases[0].id if len(c.bases) == 1 and isinstance(c.bases[0], ast.Name) else None
+        return None
 
     # ---- lookup --------------------------------------------------------------------------------
     def func(self, name):
@@ -252,9 +472,121 @@ class Translator:
         self.out.append(text)
 
     # ---- index maps ------------------------------------------------------------------------------
+    def int_array_literal(self, e):
+        """np.array(<nested list of ints>) (also through a module-level constant) -> numpy int array, else None"""
+        import numpy as _np
+        if isinstance(e, ast.Name) and e.id in self.module_consts:
+            e = self.module_consts[e.id]
+        if isinstance(e, ast.Call) and _is_np(e.func, 'array') and len(e.args) == 1 and not e.keywords:
+            e = e.args[0]
+        elif not isinstance(e, (ast.List, ast.Tuple)):
+            return None
+
+        def lit(x):
+            if isinstance(x, (ast.List, ast.Tuple)):
+                return [lit(y) for y in x.elts]
+            if isinstance(x, ast.Constant) and isinstance(x.value, int) and not isinstance(x.value, bool):
+                return x.value
+            raise ValueError
+        try:
+            a = _np.array(lit(e))
+        except ValueError:
+            return None
+        return a if a.dtype.kind == 'i' and a.ndim >= 1 else None
+
+    def gather_form(self, f, shape):
+        """vectorised copy  dst[...] = src[I0, I1, ...]  (or `return src[I0, I1, ...]`) where every Ik is a literal
+        integer array indexed with full slices / np.newaxis only.  The index arrays are literals, so their
+        broadcast (numpy semantics, evaluated here on the literals themselves) IS the index map of the function.
+        Returns the list of broadcast index arrays (each of the given shape), or None if the body has another form."""
+        import numpy as _np
+        where = f.name
+        (src,) = self.argnames(f)
+        body = _strip_doc(f.body)
+        arrays, dst, gathered = {}, None, None
+        for st in body[:-1]:
+            if not (isinstance(st, ast.Assign) and len(st.targets) == 1):
+                return None
+            tg = st.targets[0]
+            if isinstance(tg, ast.Name):
+                a = self.int_array_literal(st.value)
+                if a is not None:
+                    arrays[tg.id] = a
+                    continue
+                try:
+                    dst = self._zeros_target(st, shape, where)
+                    continue
+                except TranslationError:
+                    return None
+            if (isinstance(tg, ast.Subscript) and isinstance(tg.value, ast.Name) and tg.value.id == dst and gathered is None
+                    and ((isinstance(tg.slice, ast.Constant) and tg.slice.value is Ellipsis)
+                         or (isinstance(tg.slice, ast.Slice) and tg.slice.lower is None and tg.slice.upper is None and tg.slice.step is None))):
+                gathered = st.value
+                continue
+            return None
+        ret = body[-1] if body else None
+        if not isinstance(ret, ast.Return):
+            return None
+        if gathered is None:
+            gathered = ret.value
+        elif not (isinstance(ret.value, ast.Name) and ret.value.id == dst):
+            return None
+        g = gathered
+        if not (isinstance(g, ast.Subscript) and isinstance(g.value, ast.Name) and g.value.id == src and isinstance(g.slice, ast.Tuple)):
+            return None
+        idx = []
+        for ix in g.slice.elts:
+            if isinstance(ix, ast.Name) and ix.id in arrays:
+                idx.append(arrays[ix.id])
+                continue
+            if not (isinstance(ix, ast.Subscript) and isinstance(ix.value, ast.Name) and ix.value.id in arrays):
+                return None
+            parts = ix.slice.elts if isinstance(ix.slice, ast.Tuple) else [ix.slice]
+            key = []
+            for pt in parts:
+                if isinstance(pt, ast.Slice) and pt.lower is None and pt.upper is None and pt.step is None:
+                    key.append(slice(None))
+                elif _is_np(pt, 'newaxis') or (isinstance(pt, ast.Constant) and pt.value is None):
+                    key.append(None)
+                else:
+                    return None
+            try:
+                idx.append(arrays[ix.value.id][tuple(key)])
+            except IndexError:
+                raise TranslationError('index array subscripted with too many axes', ix, where)
+        try:
+            out = _np.broadcast_arrays(*idx)
+        except ValueError:
+            raise TranslationError('index arrays do not broadcast', g, where)
+        if out[0].shape != tuple(shape):
+            raise TranslationError('gathered shape %r, expected %r' % (out[0].shape, tuple(shape)), g, where)
+        return [_np.array(o) for o in out]
+
     def tr_convert2To4(self):
         f = self.func('convert2To4rankTensor')
         where = f.name
+        g = self.gather_form(f, (3, 3, 3, 3))
+        if g is not None:
+            if len(g) != 2:
+                raise TranslationError('a 6x6 array is read with two indices', f, where)
+            A, B = g
+            table = {}
+            for i in range(3):
+                for j in range(3):
+                    if not ((A[i, j] == A[i, j, 0, 0]).all() and (B[:, :, i, j] == B[0, 0, i, j]).all()):
+                        raise TranslationError('row index must depend on (i,j) only, column index on (k,l) only', f, where)
+                    if int(A[i, j, 0, 0]) != int(B[0, 0, i, j]):
+                        raise TranslationError('row and column use different index maps', f, where)
+                    table[(i, j)] = int(A[i, j, 0, 0])
+            if not all(0 <= v2 < 6 for v2 in table.values()):
+                raise TranslationError('index map leaves the 6x6 array', f, where)
+            rows = ['  | %d, %d => %d' % (i, j, table[(i, j)]) for i in range(3) for j in range(3)]
+            self.emit('(* convert2To4rankTensor (vectorised form): c4[i,j,k,l] = c2[voigt[i,j], voigt[k,l]] *)\n'
+                      'Definition vmap24_gen (i j : nat) : nat :=\n  match i, j with\n%s\n  | _, _ => 0\n  end%%nat.\n'
+                      'Definition convert2To4_gen (c2 : nat -> nat -> R) : nat -> nat -> nat -> nat -> R :=\n'
+                      '  fun i j k l => c2 (vmap24_gen i j) (vmap24_gen k l).\n' % '\n'.join(rows))
+            self.info['vmap24'] = {'%d%d' % k: v2 for k, v2 in table.items()}
+            return
         (src,) = self.argnames(f)
         body = _strip_doc(f.body)
         if len(body) != 4:
@@ -348,6 +680,27 @@ class Translator:
     def tr_convert4To2(self):
         f = self.func('convert4To2rankTensor')
         where = f.name
+        g = self.gather_form(f, (6, 6))
+        if g is not None:
+            if len(g) != 4:
+                raise TranslationError('a 4th rank array is read with four indices', f, where)
+            pairs = []
+            for I in range(6):
+                if not all((g[k][I, :] == g[k][I, 0]).all() for k in (0, 1)) or not all((g[k][:, I] == g[k][0, I]).all() for k in (2, 3)):
+                    raise TranslationError('first index pair must depend on the row only, second pair on the column only', f, where)
+                if (int(g[0][I, 0]), int(g[1][I, 0])) != (int(g[2][0, I]), int(g[3][0, I])):
+                    raise TranslationError('row and column use different index maps', f, where)
+                pairs.append((int(g[0][I, 0]), int(g[1][I, 0])))
+            if not all(0 <= a < 3 and 0 <= b < 3 for a, b in pairs):
+                raise TranslationError('index map leaves the 3x3x3x3 array', f, where)
+            self.emit('(* convert4To2rankTensor (vectorised form): c2[i,j] = c4[rows[i], cols[i], rows[j], cols[j]] *)\n'
+                      'Definition vmap42_gen : list (nat * nat) := [%s]%%nat.\n'
+                      'Definition convert4To2_gen (c4 : nat -> nat -> nat -> nat -> R) : nat -> nat -> R :=\n'
+                      '  fun i j => c4 (fst (nth i vmap42_gen (0, 0)%%nat)) (snd (nth i vmap42_gen (0, 0)%%nat))\n'
+                      '                (fst (nth j vmap42_gen (0, 0)%%nat)) (snd (nth j vmap42_gen (0, 0)%%nat)).\n'
+                      % '; '.join('(%d, %d)' % p2 for p2 in pairs))
+            self.info['vmap42'] = pairs
+            return
         (src,) = self.argnames(f)
         body = _strip_doc(f.body)
         if len(body) != 4:
@@ -446,37 +799,44 @@ class Translator:
         where = f.name
         (src,) = self.argnames(f)
         body = _strip_doc(f.body)
-        w, wname = None, None
-        if len(body) == 3:
-            wname, w = self._weights(body[0], where)
-            body = body[1:]
-        if len(body) != 2:
-            raise TranslationError('expected [w = ...;] c2 = convert4To2rankTensor(c4); return ...', f, where)
-        st_c2, st_ret = body
-        ok = (isinstance(st_c2, ast.Assign) and len(st_c2.targets) == 1 and isinstance(st_c2.targets[0], ast.Name)
-              and isinstance(st_c2.value, ast.Call) and isinstance(st_c2.value.func, ast.Name) and st_c2.value.func.id == 'convert4To2rankTensor'
-              and len(st_c2.value.args) == 1 and isinstance(st_c2.value.args[0], ast.Name) and st_c2.value.args[0].id == src)
-        if not ok:
-            raise TranslationError('expected c2 = convert4To2rankTensor(%s)' % src, st_c2, where)
-        c2 = st_c2.targets[0].id
-        if not (isinstance(st_ret, ast.Return) and isinstance(st_ret.value, ast.Call) and isinstance(st_ret.value.func, ast.Name)
-                and st_ret.value.func.id == 'convert2To4rankTensor' and len(st_ret.value.args) == 1):
-            raise TranslationError('expected return convert2To4rankTensor(...)', st_ret, where)
-        inner = st_ret.value.args[0]
+        # weight vector (literal or module-level constant) bound to a local name, if any
+        w, wnames, rest = None, set(), []
+        for st in body:
+            if isinstance(st, ast.Assign) and len(st.targets) == 1 and isinstance(st.targets[0], ast.Name) and self.weights_value(st.value, where) is not None:
+                if w is not None and self.weights_value(st.value, where) != w:
+                    raise TranslationError('two different weight vectors', st, where)
+                w = self.weights_value(st.value, where)
+                wnames.add(st.targets[0].id)
+            else:
+                rest.append(st)
+        ret = inline_temporaries(rest, where)
+
+        def is_call(e, name):
+            return isinstance(e, ast.Call) and isinstance(e.func, ast.Name) and e.func.id == name and len(e.args) == 1 and not e.keywords
+
+        def is_w(e):
+            if isinstance(e, ast.Name) and e.id in wnames:
+                return True
+            return (not isinstance(e, ast.Name) or e.id in self.module_consts) and self.weights_value(e, where) is not None and \
+                (w is None or self.weights_value(e, where) == w)
 
         def is_inv(e, arg_pred):
             return (isinstance(e, ast.Call) and _attr_chain(e.func) == ['np', 'linalg', 'inv'] and len(e.args) == 1 and arg_pred(e.args[0]))
-        is_c2 = lambda e: isinstance(e, ast.Name) and e.id == c2
-        is_w = lambda e: isinstance(e, ast.Name) and e.id == wname
-        if is_inv(inner, is_c2) and w is None:
+        is_c2 = lambda e: is_call(e, 'convert4To2rankTensor') and isinstance(e.args[0], ast.Name) and e.args[0].id == src
+        if not is_call(ret, 'convert2To4rankTensor'):
+            raise TranslationError('expected return convert2To4rankTensor(...)', f, where)
+        inner = ret.args[0]
+        if is_inv(inner, is_c2):
             form = 'Unweighted'
             w = [1, 1, 1, 1, 1, 1]
-        elif (w is not None and isinstance(inner, ast.BinOp) and isinstance(inner.op, ast.Div) and is_w(inner.right)
+        elif (isinstance(inner, ast.BinOp) and isinstance(inner.op, ast.Div) and is_w(inner.right)
               and is_inv(inner.left, lambda a: isinstance(a, ast.BinOp) and isinstance(a.op, ast.Mult) and is_c2(a.left) and is_w(a.right))):
             form = 'ColumnWeighted'
+            if w is None:
+                w = self.weights_value(inner.right, where)
         else:
-            raise TranslationError('expected np.linalg.inv(c2) or np.linalg.inv(c2 * w) / w', st_ret, where)
-        if len(w) != 6:
+            raise TranslationError('expected np.linalg.inv(c2) or np.linalg.inv(c2 * w) / w', f, where)
+        if w is None or len(w) != 6:
             raise TranslationError('weight vector must have six entries', f, where)
         self.emit('(* invert4rankTensor: convert2To4rankTensor(%s) *)\n'
                   'Inductive invert4_form := Unweighted | ColumnWeighted.\n'
@@ -645,14 +1005,16 @@ class Translator:
         self.info['moduli_branches'] = nbranch[0]
 
     # ---- straight-line formula methods ---------------------------------------------------------------
-    def formula_method(self, cname, mname, gen_name, array_args=(), scalar_args=None, array_result=False):
+    def formula_method(self, cname, mname, gen_name, array_args=None):
+        """array_args: {argument name: shape}"""
+        array_args = array_args or {}
         m = self.method(cname, mname)
         where = '%s.%s' % (cname, mname)
         names = self.argnames(m, drop_self=True)
-        F = Formula(where)
+        F = Formula(where, self, cname)
         for a in names:
             if a in array_args:
-                F.declare_array(a)
+                F.declare_array(a, shape=array_args[a])
             else:
                 F.declare_scalar(a)
         body = _strip_doc(m.body)
@@ -666,7 +1028,7 @@ class Translator:
         return F, ret, names
 
     def tr_khachaturyan(self):
-        F, ret, names = self.formula_method('SphericalEnergyDescription', '_Khachaturyan', 'Khachaturyan_gen', array_args=('radius',))
+        F, ret, names = self.formula_method('SphericalEnergyDescription', '_Khachaturyan', 'Khachaturyan_gen', array_args={'radius': (3,)})
         txt = F.expr(ret)
         self.emit('(* SphericalEnergyDescription._Khachaturyan; parameters in order of first use *)\n'
                   + F.header('Khachaturyan_gen') + F.wrap(txt) + '.\n')
@@ -680,7 +1042,7 @@ class Translator:
                   and isinstance(body[0].value.args[2], ast.Name) and body[0].value.args[2].id == rad)
             if not ok:
                 raise TranslationError('expected return self._Khachaturyan(I1, I2, radius)', m, cname)
-            G = Formula(cname)
+            G = Formula(cname, self, cname)
             self.emit('Definition %s_I1_gen : R := %s.\nDefinition %s_I2_gen : R := %s.\n'
                       % (tag, G.expr(body[0].value.args[0]), tag, G.expr(body[0].value.args[1])))
             if G.params:
@@ -689,7 +1051,7 @@ class Translator:
             raise TranslationError('_Khachaturyan(self, I1, I2, radius) expected', None, 'SphericalEnergyDescription._Khachaturyan')
 
     def tr_constant(self):
-        F, ret, names = self.formula_method('ConstantEnergyDescription', 'computeStrainEnergy', 'constantEnergy_gen', array_args=('radius',))
+        F, ret, names = self.formula_method('ConstantEnergyDescription', 'computeStrainEnergy', 'constantEnergy_gen', array_args={'radius': (3,)})
         txt = F.expr(ret)
         self.emit('(* ConstantEnergyDescription.computeStrainEnergy *)\n' + F.header('constantEnergy_gen') + F.wrap(txt) + '.\n')
         self.info['constant_params'] = list(F.params)
@@ -698,27 +1060,20 @@ class Translator:
         m = self.method('EllipsoidalEnergyDescription', '_ohm_quickInverse')
         where = 'EllipsoidalEnergyDescription._ohm_quickInverse'
         (arg,) = self.argnames(m, drop_self=True)
-        F = Formula(where)
-        F.declare_array(arg, 'm')
-        for i in range(3):
-            for j in range(3):
-                F.param('m_%d_%d' % (i, j))
+        F = Formula(where, self, 'EllipsoidalEnergyDescription')
+        F.declare_array(arg, 'm', shape=(3, 3))
         body = _strip_doc(m.body)
-        for st in body[:-1]:
-            if F.stmt(st) is not None:
-                F.err('early return', st)
-        ret = body[-1]
-        ok = (isinstance(ret, ast.Return) and isinstance(ret.value, ast.BinOp) and isinstance(ret.value.op, ast.Div)
-              and isinstance(ret.value.left, ast.Call) and _is_np(ret.value.left.func, 'array') and len(ret.value.left.args) == 1
-              and isinstance(ret.value.left.args[0], ast.List) and len(ret.value.left.args[0].elts) == 3)
-        if not ok:
-            F.err('expected return np.array([[..],[..],[..]]) / det', ret)
-        den = F.expr(ret.value.right)
-        rows = []
-        for row in ret.value.left.args[0].elts:
-            if not (isinstance(row, ast.List) and len(row.elts) == 3):
-                F.err('expected rows of three entries', row)
-            rows.append('[' + '; '.join('%s / %s' % (F.expr(x), den) for x in row.elts) + ']')
+        ret = None
+        for st in body:
+            if ret is not None:
+                F.err('statement after return', st)
+            ret = F.stmt(st)
+        if ret is None:
+            F.err('no return', m)
+        v = F.value(ret)
+        if not (F.is_array(v) and len(F.expand(v, ret)) == 3 and all(F.is_array(r) and len(F.expand(r, ret)) == 3 for r in F.expand(v, ret))):
+            F.err('expected a 3x3 array as result', ret)
+        rows = ['[' + '; '.join(F.scalar(x, ret) for x in F.expand(r, ret)) + ']' for r in F.expand(v, ret)]
         if len(F.params) != 9:
             F.err('unexpected free names: %s' % F.params[9:], m)
         self.emit('(* EllipsoidalEnergyDescription._ohm_quickInverse (entry-wise; m_i_j = m[i,j]) *)\n'
@@ -726,10 +1081,10 @@ class Translator:
 
     def tr_n_beta(self):
         F, ret, names = self.formula_method('EllipsoidalEnergyDescription', '_n', 'n_gen')
-        ok = (isinstance(ret, ast.Call) and _is_np(ret.func, 'array') and len(ret.args) == 1 and isinstance(ret.args[0], ast.List) and len(ret.args[0].elts) == 3)
-        if not ok or names != ['phi', 'theta']:
-            raise TranslationError('expected _n(self, phi, theta): return np.array([x, y, z])', None, 'EllipsoidalEnergyDescription._n')
-        comps = [F.expr(x) for x in ret.args[0].elts]
+        v = F.value(ret)
+        if not (F.is_array(v) and len(F.expand(v, ret)) == 3) or names != ['phi', 'theta']:
+            raise TranslationError('expected _n(self, phi, theta) returning an array of three components', None, 'EllipsoidalEnergyDescription._n')
+        comps = [F.scalar(x, ret) for x in F.expand(v, ret)]
         if F.params != ['phi', 'theta']:
             raise TranslationError('_n may only use phi, theta', None, 'EllipsoidalEnergyDescription._n')
         self.emit('(* EllipsoidalEnergyDescription._n *)\n' + F.header('n_gen', 'R * R * R') + F.wrap('(%s, %s, %s)' % tuple(comps)) + '.\n')
@@ -742,24 +1097,59 @@ class Translator:
         self.emit('(* EllipsoidalEnergyDescription._beta *)\n' + F.header('beta_gen') + F.wrap(txt) + '.\n')
 
     # ---- scalar prefactors of the tensor code ----------------------------------------------------------
+    def weights_value(self, e, where):
+        """np.array([numbers]) literal, possibly through a module-level constant -> list of numbers, else None"""
+        if isinstance(e, ast.Name) and e.id in self.module_consts:
+            e = self.module_consts[e.id]
+        if (isinstance(e, ast.Call) and _is_np(e.func, 'array') and len(e.args) == 1 and isinstance(e.args[0], (ast.List, ast.Tuple))
+                and all(isinstance(x, ast.Constant) and isinstance(x.value, (int, float)) and not isinstance(x.value, bool) for x in e.args[0].elts)):
+            return [x.value for x in e.args[0].elts]
+        return None
+
+    def radius_expressions(self, cname, mname):
+        """scalar expressions of `radius` alone that the method assigns to a local name (the particle volume):
+        every assignment is tried on the normalised form (helpers inlined); what is not a formula is skipped"""
+        m = self.method(cname, mname)
+        args = self.argnames(m, drop_self=True)
+        if len(args) != 1:
+            raise TranslationError('expected one argument (radius)', m, cname + '.' + mname)
+        found = []
+        F = Formula(cname + '.' + mname, self, cname, use_lets=False)
+        F.declare_array(args[0], 'radius', shape=(3,))
+        for st in _strip_doc(m.body):
+            if not (isinstance(st, ast.Assign) and len(st.targets) == 1 and isinstance(st.targets[0], ast.Name)):
+                continue
+            nused = len(F.used)
+            try:
+                v = F.value(st.value)
+            except TranslationError:
+                F.env.pop(st.targets[0].id, None)
+                del F.used[nused:]
+                continue
+            F.env[st.targets[0].id] = v
+            if isinstance(v, str) and len(F.used) == nused and 'radius_' in v:
+                found.append(v)
+        return found
+
     def tr_prefactors(self):
         C = 'EllipsoidalEnergyDescription'
-        # sphInt: endTerm = 1 / self._beta(radius[0], radius[1], radius[2], phi, theta)**3 ; return 8*d*self.dA
+        # sphInt: <name> = 1 / self._beta(radius[0], radius[1], radius[2], phi grid, theta grid)**n ; return <number> * d * self.dA
         m = self.method(C, 'sphInt')
+        margs = self.argnames(m, drop_self=True)
         body = _strip_doc(m.body)
-        endterm = None
-        for st in body:
-            if isinstance(st, ast.Assign) and len(st.targets) == 1 and isinstance(st.targets[0], ast.Name) and st.targets[0].id == 'endTerm':
-                endterm = st.value
-        ok = (isinstance(endterm, ast.BinOp) and isinstance(endterm.op, ast.Div) and isinstance(endterm.left, ast.Constant) and endterm.left.value == 1
-              and isinstance(endterm.right, ast.BinOp) and isinstance(endterm.right.op, ast.Pow) and isinstance(endterm.right.right, ast.Constant)
-              and isinstance(endterm.right.left, ast.Call) and _attr_chain(endterm.right.left.func) == ['self', '_beta'] and len(endterm.right.left.args) == 5)
-        if not ok:
-            raise TranslationError('expected endTerm = 1 / self._beta(radius[0], radius[1], radius[2], phi, theta)**n', m, C + '.sphInt')
+
+        def is_endterm(e):
+            return (isinstance(e, ast.BinOp) and isinstance(e.op, ast.Div) and isinstance(e.left, ast.Constant) and e.left.value == 1
+                    and isinstance(e.right, ast.BinOp) and isinstance(e.right.op, ast.Pow) and isinstance(e.right.right, ast.Constant)
+                    and isinstance(e.right.left, ast.Call) and _attr_chain(e.right.left.func) == ['self', '_beta'] and len(e.right.left.args) == 5)
+        ends = [st.value for st in body if isinstance(st, ast.Assign) and is_endterm(st.value)]
+        if len(ends) != 1:
+            raise TranslationError('expected one assignment <name> = 1 / self._beta(radius[0], radius[1], radius[2], phi, theta)**n', m, C + '.sphInt')
+        endterm = ends[0]
         bargs = endterm.right.left.args
         for k in range(3):
             a = bargs[k]
-            if not (isinstance(a, ast.Subscript) and isinstance(a.value, ast.Name) and a.value.id == 'radius' and _const_index(a.slice) == (k,)):
+            if not (isinstance(a, ast.Subscript) and isinstance(a.value, ast.Name) and a.value.id == margs[0] and _const_index(a.slice) == (k,)):
                 raise TranslationError('_beta must receive radius[0], radius[1], radius[2]', a, C + '.sphInt')
         if _attr_chain(bargs[3]) != ['self', 'midPhiGrid'] or _attr_chain(bargs[4]) != ['self', 'midThetaGrid']:
             raise TranslationError('_beta must receive self.midPhiGrid, self.midThetaGrid', m, C + '.sphInt')
@@ -771,19 +1161,19 @@ class Translator:
             raise TranslationError('expected return <number> * d * self.dA', ret, C + '.sphInt')
         self.emit('(* sphInt: endTerm = 1 / beta**%d ; return %s * d * self.dA *)\nDefinition endTerm_power_gen : nat := %d.\nDefinition sphInt_factor_gen : R := %s.\n'
                   % (endterm.right.right.value, _num(ret.value.left.left.value, ret), endterm.right.right.value, _num(ret.value.left.left.value, ret)))
-        # Dijkl: return <expr> * self.sphInt(radius, c4)
+        # Dijkl: return <expr> * self.sphInt(<its two arguments>)   (temporaries substituted)
         m = self.method(C, 'Dijkl')
-        body = _strip_doc(m.body)
-        ret = body[-1]
-        ok = (len(body) == 1 and isinstance(ret, ast.Return) and isinstance(ret.value, ast.BinOp) and isinstance(ret.value.op, ast.Mult)
-              and isinstance(ret.value.right, ast.Call) and _attr_chain(ret.value.right.func) == ['self', 'sphInt']
-              and [getattr(a, 'id', None) for a in ret.value.right.args] == ['radius', 'c4'])
+        margs = self.argnames(m, drop_self=True)
+        ret = inline_temporaries(_strip_doc(m.body), C + '.Dijkl')
+        ok = (isinstance(ret, ast.BinOp) and isinstance(ret.op, ast.Mult)
+              and isinstance(ret.right, ast.Call) and _attr_chain(ret.right.func) == ['self', 'sphInt']
+              and [getattr(a, 'id', None) for a in ret.right.args] == margs and len(margs) == 2)
         if not ok:
             raise TranslationError('expected return <prefactor> * self.sphInt(radius, c4)', m, C + '.Dijkl')
-        F = Formula(C + '.Dijkl')
-        F.declare_array('radius')
-        txt = F.expr(ret.value.left)
-        self.emit('(* Dijkl: return <this> * self.sphInt(radius, c4) *)\n' + F.header('Dijkl_prefactor_gen') + txt + '.\n')
+        F = Formula(C + '.Dijkl', self, C)
+        F.declare_array(margs[0], 'radius', shape=(3,))
+        txt = F.expr(ret.left)
+        self.emit('(* Dijkl: return <this> * self.sphInt(radius, c4) *)\n' + F.header('Dijkl_prefactor_gen') + F.wrap(txt) + '.\n')
         # Sijmn: S = <number> * np.tensordot(...)
         m = self.method(C, 'Sijmn')
         pref = None
@@ -793,53 +1183,49 @@ class Translator:
                 pref = st.value.left
         if pref is None:
             raise TranslationError('expected S = <number> * np.tensordot(...)', m, C + '.Sijmn')
-        self.emit('(* Sijmn: S = <this> * np.tensordot(...) *)\nDefinition Sijmn_prefactor_gen : R := %s.\n' % Formula(C + '.Sijmn').expr(pref))
-        # _strainEnergy: return <expr in V> * np.sum(stress * strain)
+        self.emit('(* Sijmn: S = <this> * np.tensordot(...) *)\nDefinition Sijmn_prefactor_gen : R := %s.\n' % Formula(C + '.Sijmn', self, C).expr(pref))
+        # _strainEnergy(stress, strain, V): return <expr in V> * np.sum(stress * strain)
         m = self.method(C, '_strainEnergy')
-        body = _strip_doc(m.body)
-        ret = body[-1]
-        ok = (len(body) == 1 and isinstance(ret, ast.Return) and isinstance(ret.value, ast.BinOp) and isinstance(ret.value.op, ast.Mult)
-              and isinstance(ret.value.right, ast.Call) and _is_np(ret.value.right.func, 'sum') and len(ret.value.right.args) == 1
-              and isinstance(ret.value.right.args[0], ast.BinOp) and isinstance(ret.value.right.args[0].op, ast.Mult)
-              and sorted(getattr(x, 'id', '') for x in (ret.value.right.args[0].left, ret.value.right.args[0].right)) == ['strain', 'stress'])
+        margs = self.argnames(m, drop_self=True)
+        ret = inline_temporaries(_strip_doc(m.body), C + '._strainEnergy')
+        ok = (len(margs) == 3 and isinstance(ret, ast.BinOp) and isinstance(ret.op, ast.Mult)
+              and isinstance(ret.right, ast.Call) and _is_np(ret.right.func, 'sum') and len(ret.right.args) == 1
+              and isinstance(ret.right.args[0], ast.BinOp) and isinstance(ret.right.args[0].op, ast.Mult)
+              and sorted(getattr(x, 'id', '') for x in (ret.right.args[0].left, ret.right.args[0].right)) == sorted(margs[:2]))
         if not ok:
             raise TranslationError('expected return <prefactor> * np.sum(stress * strain)', m, C + '._strainEnergy')
-        F = Formula(C + '._strainEnergy')
-        F.declare_scalar('V')
-        txt = F.expr(ret.value.left)
-        self.emit('(* _strainEnergy: return <this> * np.sum(stress * strain) *)\n' + F.header('strainEnergy_prefactor_gen') + txt + '.\n')
-        # V = 4*np.pi/3 * np.prod(radius) in the four energy methods; weights of the two 6x6 methods
+        F = Formula(C + '._strainEnergy', self, C)
+        F.declare_scalar(margs[2], 'V')
+        txt = F.expr(ret.left)
+        self.emit('(* _strainEnergy: return <this> * np.sum(stress * strain) *)\n' + F.header('strainEnergy_prefactor_gen') + F.wrap(txt) + '.\n')
+        # the particle volume of the four energy methods; weights of the two 6x6 methods
         vols = []
         for mn in ('strainEnergyEllipsoid', 'strainEnergyEllipsoid2ndRank', 'strainEnergyBohm', 'strainEnergyBohm2ndRank'):
-            m = self.method(C, mn)
-            v = [st for st in _strip_doc(m.body) if isinstance(st, ast.Assign) and len(st.targets) == 1
-                 and isinstance(st.targets[0], ast.Name) and st.targets[0].id == 'V']
-            if len(v) != 1:
-                raise TranslationError('expected one assignment V = ...', m, C + '.' + mn)
-            F = Formula(C + '.' + mn)
-            F.declare_array('radius')
-            vols.append((mn, F.expr(v[0].value), list(F.params)))
-        if len(set(t for _, t, _ in vols)) != 1 or vols[0][2] != ['radius_0', 'radius_1', 'radius_2']:
+            found = sorted(set(self.radius_expressions(C, mn)))
+            if len(found) != 1:
+                raise TranslationError('expected exactly one scalar expression of the radii (the volume), found %d' % len(found), self.method(C, mn), C + '.' + mn)
+            vols.append(found[0])
+        if len(set(vols)) != 1:
             raise TranslationError('the four energy methods must use the same volume expression of radius', None, C)
-        self.emit('(* V of the four energy methods *)\nDefinition volume_gen (radius_0 radius_1 radius_2 : R) : R :=\n  %s.\n' % vols[0][1])
+        self.emit('(* V of the four energy methods *)\nDefinition volume_gen (radius_0 radius_1 radius_2 : R) : R :=\n  %s.\n' % vols[0])
         for mn, tag in (('strainEnergyEllipsoid2ndRank', 'ellipsoid2'), ('strainEnergyBohm2ndRank', 'bohm2')):
             m = self.method(C, mn)
             ws = []
             for st in _strip_doc(m.body):
-                try:
-                    ws.append(self._weights(st, mn))
-                except TranslationError:
-                    pass
-            w = ws[0][1] if ws else [1, 1, 1, 1, 1, 1]
+                if isinstance(st, ast.Assign) and len(st.targets) == 1 and isinstance(st.targets[0], ast.Name):
+                    w = self.weights_value(st.value, mn)
+                    if w is not None:
+                        ws.append(w)
+            w = ws[0] if ws else [1, 1, 1, 1, 1, 1]
             if len(ws) > 1 or len(w) != 6:
                 raise TranslationError('at most one 6-entry weight vector expected', m, C + '.' + mn)
             self.emit('Definition %s_weights_gen : list R := [%s].\n' % (tag, '; '.join(_num(x, m) for x in w)))
         # setLebedevIntegration: self.dA = np.pi/2
         m = self.method(C, 'setLebedevIntegration')
-        da = [st for st in _strip_doc(m.body) if isinstance(st, ast.Assign) and len(st.targets) == 1 and _attr_chain(st.targets[0]) == ['self', 'dA']]
+        da = [st for st in ast.walk(m) if isinstance(st, ast.Assign) and len(st.targets) == 1 and _attr_chain(st.targets[0]) == ['self', 'dA']]
         if len(da) != 1:
             raise TranslationError('expected one assignment self.dA = ...', m, C + '.setLebedevIntegration')
-        self.emit('(* setLebedevIntegration: self.dA *)\nDefinition lebedev_dA_gen : R := %s.\n' % Formula(C).expr(da[0].value))
+        self.emit('(* setLebedevIntegration: self.dA *)\nDefinition lebedev_dA_gen : R := %s.\n' % Formula(C, self, C).expr(da[0].value))
 
     # ---- rotation setters ---------------------------------------------------------------------------------
     def tr_rotation_setters(self):
